@@ -186,7 +186,8 @@ def eval_long(case):
 
 
 def shards(ctx):
-    build.build("asm")
+    for c in ("asm", "c64", "c32"):
+        build.build(c)
     U = c11.universe(ctx, quick_l=3)
     vals = wk.values(ctx.seed)
     reach = wk.reachable(U["l"], U["names"], vals, witnesses=1)
@@ -194,6 +195,11 @@ def shards(ctx):
     for st, hists in sorted(reach.items(), key=lambda kv: str(kv[0])):
         out.append({"state": [st[0], list(st[1])], "history": hists[0]})
     ctx.extra["abstract_states"] = len(reach)
+    for k, (st, hists) in enumerate(sorted(reach.items(), key=lambda kv: str(kv[0]))):
+        if k % 12 in (1, 7):
+            out.append({"state": [st[0], list(st[1])], "history": hists[0], "cfg": "c64" if k % 12 == 1 else "c32"})
+    out.append({"sub": "long", "n": 9, "cfg": "c64"})
+    out.append({"sub": "long", "n": 6, "cfg": "c32"})
     for n in (wk.LONG_N if ctx.tier == "thorough" else [5, 9, 17, 33, 65]):
         out.append({"sub": "long", "n": n})
     return out
@@ -201,7 +207,7 @@ def shards(ctx):
 
 def run_shard(ctx, shard):
     if shard.get("sub") == "long":
-        case = {"sub": "long", "cfg": "asm", "seed": ctx.seed, "n": shard["n"]}
+        case = {"sub": "long", "cfg": shard.get("cfg", "asm"), "seed": ctx.seed, "n": shard["n"]}
         msgs = eval_long(case)
         ctx.ok(True, "long-list")
         if msgs:
@@ -211,7 +217,7 @@ def run_shard(ctx, shard):
     vals = wk.values(ctx.seed)
     state = (shard["state"][0], tuple(shard["state"][1]))
     pat = state[1]
-    base = {"cfg": "asm", "l": U["l"], "seed": ctx.seed, "history": shard["history"]}
+    base = {"cfg": shard.get("cfg", "asm"), "l": U["l"], "seed": ctx.seed, "history": shard["history"]}
     others = all_lists(U["l"], U["names"])
     exts = extension_lists(pat, U["names"])
     ms = messages(ctx.seed, ctx.tier)
